@@ -74,6 +74,10 @@ CLAIMED = {
    technique="deviation-bounded exhaustive fault enumeration over byte sources: every single-byte deviation (all values on header bytes), truncation, deletion and duplication at every offset of every seed stream, every sequence of <= 3 well-formed segments, an RLE FrameInfo x header x body lattice, into all 22 decoding entry points in sandboxed worker processes",
    text="Seeds are valid streams of every encoder and configuration class (56 quick / 103 thorough: DCT, lossless, JPEG-LS incl. LSE, JPEG 2000 with layers/precincts/tiles/ROI/MCT/HT, spliced COC/QCC/POC/PLT/PPM/TLM/CRG/MCT/MCC/MCO segments, reference-encoder streams with Td 0..3, DRI, sub-sampling, two third-party HTJ2K fixtures). Deviation 0, then 1 (every position x every other value on marker segments, boundary values and bit flips on entropy bytes in quick; all values in thorough), deviation 2 on header byte pairs x 12 boundary values (thorough). About 24 M decodes per quick run. A recovered panic is a violation keyed by entry point and panic site; a killed or crashed worker is attributed to one case through a per-case journal and re-run alone 5x.",
    note="Inputs whose independently parsed header declares more than 2^12 samples are thinned (1/16 .. 1/256) and above 2^26 skipped in quick because fresh memory is what limits throughput in this VM; out-of-memory aborts are C09's subject. The thin Codec.Decode wrappers see every 8th input in quick."),
+ "C09": dict(engine="E3 with resource monitors", design="§4 C09",
+   technique="the C08 deviation-bounded enumeration plus size-field deviations, each in-scope decode monitored for wall time and bytes allocated (stage 1), exceeders re-run alone 5x in fresh processes with a 100 us heap sampler under RLIMIT_AS (stage 2)",
+   text="Same seeds, deviations and 22 entry points as C08 plus every 16/32-bit extent field, sub-sampling byte, segment length and Psot set to boundary values; RLE with the full FrameInfo lattice. An independent SOF/SIZ reader puts inputs declaring more than 2^22 samples (or frames above it) out of scope (counted). In scope: wall time <= 10 s and allocated bytes <= 512 MiB + 64*S; only a case that exceeds in all 5 solitary re-runs (peak live heap sampled every 100 us) is a violation; a fatal out-of-memory abort is one too. At most 8 workers.",
+   note="Observes executions; it does not bound the decoders' complexity. Time is measured under load, so stage 2 exists to remove load-induced exceeders. max wall and max allocation seen are in the evidence stats."),
 }
 NOT_APPLICABLE = {}
 
